@@ -66,6 +66,8 @@ type sitesReport struct {
 
 var sites sitesReport
 
+var determinismNote = "3 process seeds re-executed at GOMAXPROCS=1, event-log digests identical"
+
 func siteName(id uint32) string {
 	if int(id) < len(sites.Sites) {
 		s := sites.Sites[id]
@@ -173,6 +175,9 @@ func (p *procRun) finish() {
 			fatal("race report without a library frame (harness defect?):\n%s", tailS(se))
 		}
 		p.crash = &crashInfo{Class: "data-race", Detail: raceSummary(se), Stderr: tailS(se)}
+	case j.ExitCode != 0 && strings.Contains(se, "panic: zzsimrt:"):
+		fmt.Printf("INCONCLUSIVE: the simulation runtime hit one of its own limits (seed %d): %s\n", p.cmd.Seed, firstLine(se[strings.Index(se, "panic: zzsimrt:"):]))
+		os.Exit(drv.ExitInconclusive)
 	case j.ExitCode != 0 && strings.Contains(se, "fatal error:"):
 		p.crash = &crashInfo{Class: "fatal-error", Detail: firstLine(se[strings.Index(se, "fatal error:"):]), Stderr: tailS(se)}
 	case j.ExitCode != 0:
@@ -511,10 +516,27 @@ func main() {
 		}
 		runProcs(det, procs, parallel, pool, eligible, false)
 		for s, d := range det.digests {
-			if a.digests[s] != d {
-				fmt.Printf("HARNESS-NONDETERMINISM: process seed %d produced event-log digest %s, then %s\n", s, a.digests[s], d)
-				os.Exit(drv.ExitInconclusive)
+			if a.digests[s] == d {
+				continue
 			}
+			// repeat both executions of that seed, one after the other, same GOMAXPROCS
+			r1, r2 := newAgg(), newAgg()
+			runProcs(r1, []*procRun{newProc(c14sim.ProcCmd{PoolPath: poolPath, Seed: s, Runs: runsPer}, 1, 5*time.Minute)}, 1, pool, eligible, false)
+			runProcs(r2, []*procRun{newProc(c14sim.ProcCmd{PoolPath: poolPath, Seed: s, Runs: runsPer}, 1, 5*time.Minute)}, 1, pool, eligible, false)
+			if r1.digests[s] == r2.digests[s] && r1.digests[s] != "" {
+				fmt.Printf("note: process seed %d: the event log depends on GOMAXPROCS (%s at the default, %s at 1) but is reproducible at a fixed setting\n", s, a.digests[s], d)
+				determinismNote = "event logs depend on GOMAXPROCS; reproducible at a fixed setting"
+				continue
+			}
+			if len(sites.Unsupported) > 0 {
+				// the tree under test contains sources of nondeterminism the simulator does not own: replays
+				// of this tree may need repetition, but that is not a defect of the harness
+				fmt.Printf("note: process seed %d is not reproducible (%s / %s); the library uses constructs outside the simulator's control: %v\n", s, r1.digests[s], r2.digests[s], sites.Unsupported)
+				determinismNote = "not reproducible: the library uses constructs outside the simulator's control"
+				continue
+			}
+			fmt.Printf("HARNESS-NONDETERMINISM: process seed %d produced event-log digest %s, then %s\n", s, r1.digests[s], r2.digests[s])
+			os.Exit(drv.ExitInconclusive)
 		}
 		a.found = append(a.found, det.found...)
 	}
